@@ -290,6 +290,11 @@ func writeGroupIni(cmd *Command, group *Group, namespace string, writer io.Write
 				}
 			}
 		default:
+			if kind == reflect.Ptr {
+				// quote by the kind of the value pointed to
+				kind = val.Type().Elem().Kind()
+			}
+
 			v, _ := convertToString(val, option.tag)
 
 			writeOption(writer, oname, kind, "", v, commentOption, option.iniQuote)
